@@ -1661,6 +1661,8 @@ def df_slice(df, lb = None, ub = None, openclose = '(]', n = 1):
         post = df_slice(df, lb, None, openclose = openclose)
         return pd.concat([pre, post]).sort_index(kind = 'stable') # stable: rows sharing a timestamp keep their order
     if isinstance(df, list): 
+        ## bounds are read as dates before we decide if they increase or decrease: as text '28-01-2000' sorts after '03-02-2000' 
+        lb, ub = [[b if b is None or isinstance(b, datetime.time) else dt(b) for b in bounds] if isinstance(bounds, list) else bounds for bounds in (lb, ub)]
         if isinstance(lb, list) and ub is None:
             if not _is_non_decreasing(lb):
                 lb = lb[::-1]
